@@ -137,7 +137,10 @@ pub fn accept_case(doc: &Doc) -> Vec<(String, String)> {
                 break;
             }
             let var_of: Vec<usize> = var_of.into_iter().map(|v| v.unwrap()).collect();
-            match guard(|| Adf::from_parser(&parser)) {
+            // the accepted text must be usable: natively and through the biodivine bridge
+            for bridged in [false, true] {
+            let sname = if bridged { format!("{} (through biodivine)", sname) } else { sname.to_string() };
+            match guard(|| if bridged { Adf::from_biodivine(&adf_bdd::adfbiodivine::Adf::from_parser(&parser)) } else { Adf::from_parser(&parser) }) {
                 Err(m) => out.push(("accept:construction-panic".into(), format!("{}: {}", sname, m))),
                 Ok(adf) => {
                     for (li, fm) in &acs {
@@ -159,6 +162,7 @@ pub fn accept_case(doc: &Doc) -> Vec<(String, String)> {
                         }
                     }
                 }
+            }
             }
             if !out.is_empty() {
                 break;
@@ -497,7 +501,7 @@ struct St {
 }
 
 pub fn run_c08(run: &Run) {
-    run.set_rule("accept side: (i) every formula of Phi(2) = depth <= 2 (thorough: <= 7 nodes) as a condition, (ii) 40 fixed formulas with every connective in every argument position x all ordered pairs of 27 label spellings (keyword look-alikes, digits, quoted labels with blanks, brackets, dots, commas, non-ASCII, empty), (iii) the same formulas x all 4^3 layouts of blanks at the three documented positions, (iv) all orders of the facts and repeated s facts. Checked: accepted and fully consumed; labels in first-declaration order and byte-identical; ac_at(i) equals the expected Formula AST; the diagram built by Adf::from_parser denotes the written function. Reject side: every mutant of the accepted texts in the four named categories (one bracket deleted/duplicated, one '.' deleted, an argument dropped/added, trailing garbage), kept only if an independent, blank-permissive recogniser of the documented grammar rejects it; parse must return Err without panic and the CLI (three modes) must exit non-zero with empty stdout. Beyond the named categories: every single-character edit of a corpus of accepted texts must make the parser return (Ok or Err), never panic. Non-trivial: accepted texts with >= 1 binary connective or a quoted label; mutants.");
+    run.set_rule("accept side: (i) every formula of Phi(2) = depth <= 2 (thorough: <= 7 nodes) as a condition, (ii) 40 fixed formulas with every connective in every argument position x all ordered pairs of 27 label spellings (keyword look-alikes, digits, quoted labels with blanks, brackets, dots, commas, non-ASCII, empty), (iii) the same formulas x all 4^3 layouts of blanks at the three documented positions, (iv) all orders of the facts and repeated s facts. Checked: accepted and fully consumed; labels in first-declaration order and byte-identical; ac_at(i) equals the expected Formula AST; the diagrams built by Adf::from_parser and through the biodivine bridge denote the written function. Reject side: every mutant of the accepted texts in the four named categories (one bracket deleted/duplicated, one '.' deleted, an argument dropped/added, trailing garbage), kept only if an independent, blank-permissive recogniser of the documented grammar rejects it; parse must return Err without panic and the CLI (three modes) must exit non-zero with empty stdout. Beyond the named categories: every single-character edit of a corpus of accepted texts must make the parser return (Ok or Err), never panic. Non-trivial: accepted texts with >= 1 binary connective or a quoted label; mutants.");
     run.assume("unquoted labels are ASCII alphanumerics (documented); texts the permissive recogniser accepts but the parser might not (blanks at undocumented places) are never asserted either way");
     let quick = run.quick();
     let phi = if quick { formulas_depth(2, 2) } else { formulas_size(2, 7) };
